@@ -66,7 +66,7 @@ def gen_instance(rng, iid, family='random', nmax_geos=6):
     n = rng.choices([2, 3, 4, 5, 6], weights=[0.08, 0.3, 0.36, 0.2, 0.06])[0]
   n = min(n, nmax_geos)
   n_dates = rng.randint(12, 26)
-  n_test = rng.randint(2, 4)
+  n_test = rng.choice([1, 2, 2, 3, 3, 4, 4, 7])
   npm = rng.choice([90, n_dates, max(n_test + 3, n_dates - rng.randint(1, 5)), n_test + 3 + rng.randint(0, 4)])
   npm = max(npm, n_test + 3)
   nprng = np.random.RandomState(rng.randint(0, 2 ** 31 - 1))
